@@ -9,7 +9,7 @@ use crate::{
     iso::{IsoDate, IsoDateTime},
     options::{
         ArithmeticOverflow, Disambiguation, ResolvedRoundingOptions, RoundingIncrement,
-        RoundingMode, Unit,
+        RoundingMode, Unit, UnsignedRoundingMode,
     },
     primitive::FiniteF64,
     provider::TimeZoneProvider,
@@ -350,7 +350,7 @@ impl NormalizedDurationRecord {
         options: ResolvedRoundingOptions,
     ) -> TemporalResult<NudgeRecord> {
         // NOTE: r2 may never be used...need to test.
-        let (r1, r2, start_duration, end_duration) = match options.smallest_unit {
+        let (r1, _, start_duration, end_duration) = match options.smallest_unit {
             // 1. If unit is "year", then
             Unit::Year => {
                 // a. Let years be RoundNumberToIncrement(duration.[[Years]], increment, "trunc").
@@ -583,26 +583,50 @@ impl NormalizedDurationRecord {
         // TODO(nekevss): Validate that the `f64` casts here are valid in all scenarios
         // 12. Let progress be (destEpochNs - startEpochNs) / (endEpochNs - startEpochNs).
         // 13. Let total be r1 + progress × increment × sign.
-        let progress =
-            (dest_epoch_ns - start_epoch_ns.0) as f64 / (end_epoch_ns.0 - start_epoch_ns.0) as f64;
+        let numerator = dest_epoch_ns - start_epoch_ns.0;
+        let denominator = end_epoch_ns.0 - start_epoch_ns.0;
+        let progress = numerator as f64 / denominator as f64;
         let total = r1 as f64
             + progress * options.increment.get() as f64 * f64::from(sign.as_sign_multiplier());
 
-        // TODO: Test and verify that `IncrementRounder` handles the below case.
-        // NOTE(nekevss): Below will not return the calculated r1 or r2, so it is imporant to not use
-        // the result beyond determining rounding direction.
         // 14. NOTE: The above two steps cannot be implemented directly using floating-point arithmetic.
         // This division can be implemented as if constructing Normalized Time Duration Records for the denominator
         // and numerator of total and performing one division operation with a floating-point result.
         // 15. Let roundedUnit be ApplyUnsignedRoundingMode(total, r1, r2, unsignedRoundingMode).
-        let rounded_unit =
-            IncrementRounder::from_signed_num(total, options.increment.as_extended_increment())?
-                .round(options.rounding_mode);
+        // NOTE: The rounding decision is taken on the exact integer numerator and denominator of
+        // progress; the floating point total is only reported, never used to decide.
+        let unsigned_rounding_mode = options
+            .rounding_mode
+            .get_unsigned_round_mode(sign != Sign::Negative);
+        let (numerator, denominator) = if numerator.signum() == denominator.signum() {
+            (numerator.abs(), denominator.abs())
+        } else {
+            (0, denominator.abs())
+        };
+        let is_r2 = if numerator == 0 {
+            false
+        } else if numerator >= denominator {
+            true
+        } else {
+            match unsigned_rounding_mode {
+                UnsignedRoundingMode::Zero => false,
+                UnsignedRoundingMode::Infinity => true,
+                half_mode => match (2 * numerator).cmp(&denominator) {
+                    core::cmp::Ordering::Less => false,
+                    core::cmp::Ordering::Greater => true,
+                    core::cmp::Ordering::Equal => match half_mode {
+                        UnsignedRoundingMode::HalfZero => false,
+                        UnsignedRoundingMode::HalfInfinity => true,
+                        _ => (r1.abs() / i128::from(options.increment.get())) % 2 == 1,
+                    },
+                },
+            }
+        };
 
         // 16. If roundedUnit - total < 0, let roundedSign be -1; else let roundedSign be 1.
         // 19. Return Duration Nudge Result Record { [[Duration]]: resultDuration, [[Total]]: total, [[NudgedEpochNs]]: nudgedEpochNs, [[DidExpandCalendarUnit]]: didExpandCalendarUnit }.
         // 17. If roundedSign = sign, then
-        if rounded_unit == r2 {
+        if is_r2 {
             // a. Let didExpandCalendarUnit be true.
             // b. Let resultDuration be endDuration.
             // c. Let nudgedEpochNs be endEpochNs.
